@@ -40,9 +40,9 @@ fn tamper(dir: &Path, t: &str) -> Result<(), String> {
 }
 
 fn digest(port: u16) -> Value {
-    let h = http::rpc(port, "eth_blockNumber", json!([]), None).unwrap_or(Value::Null);
-    let b = http::rpc(port, "eth_getBlockByNumber", json!(["latest", false]), None).unwrap_or(Value::Null);
-    let c = http::rpc(port, "eth_getCode", json!([crate::names::CONTROLLER]), None).unwrap_or(Value::Null);
+    let h = http::rpc_sure(port, "eth_blockNumber", json!([]), None);
+    let b = http::rpc_sure(port, "eth_getBlockByNumber", json!(["latest", false]), None);
+    let c = http::rpc_sure(port, "eth_getCode", json!([crate::names::CONTROLLER]), None);
     json!([h["result"], b["result"]["hash"], c["result"].as_str().map(|s| s.len())])
 }
 
@@ -85,9 +85,9 @@ pub fn run(cases_path: &str, out_path: &str) -> i32 {
                 Ok(h) => {
                     if case["fill"] == json!("populated") {
                         let g = format!("0x{}", "ab".repeat(32));
-                        let _ = http::rpc(port, "brc20_initialise", json!([g, 7, 0]), None);
-                        let _ = http::rpc(port, "brc20_mine", json!([2, 8]), None);
-                        let _ = http::rpc(port, "brc20_commitToDatabase", json!([]), None);
+                        let _ = http::rpc_sure(port, "brc20_initialise", json!([g, 7, 0]), None);
+                        let _ = http::rpc_sure(port, "brc20_mine", json!([2, 8]), None);
+                        let _ = http::rpc_sure(port, "brc20_commitToDatabase", json!([]), None);
                     }
                     before = digest(port);
                     let _ = h.stop();
